@@ -84,10 +84,38 @@ def dec_arg(x):
     raise TypeError(f"cannot decode {x!r}")
 
 
-def apply(op):
-    """Execute an op tree against the imported yarl; raises what yarl raises."""
+def touch_all(u):
+    """'Use' an intermediate URL the way a program would before deriving from it: hash it, order it, read every
+    accessor - so that whatever those operations memoise exists before the next derivation."""
+    from .obs import ACCESSORS
+
+    try:
+        hash(u)
+        u < u
+        u <= u
+        {u: 1}
+        str(u)
+        for a in ACCESSORS:
+            try:
+                getattr(u, a)
+            except Exception:  # noqa: BLE001
+                pass
+        try:
+            list(u.query.items())
+        except Exception:  # noqa: BLE001
+            pass
+    except Exception:  # noqa: BLE001
+        pass
+    return u
+
+
+def apply(op, touch=None):
+    """Execute an op tree against the imported yarl; raises what yarl raises.
+    `touch`, if given, is called on every intermediate URL (receivers and join
+    references) before it is used."""
     from yarl import URL
 
+    t = touch or (lambda u: u)
     k = op["op"]
     if k == "ctor":
         return URL(op["s"], encoded=op.get("encoded", False))
@@ -95,18 +123,18 @@ def apply(op):
         kw = {a: dec_arg(v) for a, v in op["kw"].items()}
         return URL.build(**kw)
     if k == "mod":
-        base = apply(op["base"])
+        base = t(apply(op["base"], touch))
         args = [dec_arg(a) for a in op.get("args", [])]
         kw = {a: dec_arg(v) for a, v in op.get("kw", {}).items()}
         return getattr(base, op["m"])(*args, **kw)
     if k == "prop":
-        return getattr(apply(op["base"]), op["m"])
+        return getattr(t(apply(op["base"], touch)), op["m"])
     if k == "div":
-        return apply(op["base"]) / dec_arg(op["arg"])
+        return t(apply(op["base"], touch)) / dec_arg(op["arg"])
     if k == "mod%":
-        return apply(op["base"]) % dec_arg(op["arg"])
+        return t(apply(op["base"], touch)) % dec_arg(op["arg"])
     if k == "join":
-        return apply(op["base"]).join(apply(op["ref"]))
+        return t(apply(op["base"], touch)).join(t(apply(op["ref"], touch)))
     raise ValueError("unknown op " + k)
 
 
